@@ -29,13 +29,15 @@ class CIGAR(list):
     Returns:
       CIGAR: the complement CIGAR
     """
-    comp = list(reversed(self))
-    for op in comp:
-      if   op.code == "I": op.code = "D"
-      elif op.code == "S": op.code = "D"
-      elif op.code == "D": op.code = "I"
-      elif op.code == "N": op.code = "I"
-    return CIGAR(comp)
+    comp = CIGAR()
+    for op in reversed(self):
+      code = op.code
+      if   code == "I": code = "D"
+      elif code == "S": code = "D"
+      elif code == "D": code = "I"
+      elif code == "N": code = "I"
+      comp.append(CIGAR.Operation(op.length, code))
+    return comp
 
   def validate(self, version = "gfa1"):
     """Validates the instance.
